@@ -205,6 +205,20 @@ CLAIMED = {
     note=TB + "that the stages themselves raise only EDXML errors is established by fault injection and the leak-site table, not by proof; "
          "hangs are detected by a wall-clock watchdog; documents with visited tags outside the root are outside the skeleton model.",
     technique="Coq proof on a parser skeleton model + reflected leak-site table regenerated from source + stage-level correspondence + fault-injection oracle", ref='5 C15'),
+ 'C16': dict(
+    text="An executable Gallina model of edxml/template.py (scope splitting, placeholder scanning and parsing, every check of validate, "
+         "every formatter of evaluate, the 'a, b and c' joining, sequential replacement, scope collapsing) with library renderings as "
+         "parameters. Theorem: for EVERY template, event type and event whose values are valid for the data types the formatters care "
+         "about, if the template validates then evaluation does not raise and the caller's property mapping is what it was; lemma: "
+         "every placeholder that passed the checks of validate cannot raise (case by case over all formatters); the pinned in-place "
+         "float rewriting and the pinned acceptance of curly brackets inside placeholders are refuted. Tied to the code by T2: model "
+         "validate vs Template.validate on ~350 generated templates (grammar incl. invalid argument lists, one-fault templates, "
+         "unbalanced / damaged ones) and model evaluate vs Template.evaluate on ~1000 (template, event) pairs, exact text. Oracle: no "
+         "exception, event unchanged, no unresolved placeholder, text equal to an independent reading of the template semantics.",
+    note=TB + "library renderings ('%f' % float, dateutil, strftime, relativedelta) and the geo:point arithmetic are parameters tabulated "
+         "from the implementation; set iteration order is supplied to the model; colorize / capitalize are outside the model; that the "
+         "result contains no unresolved placeholder and renders every object is established by oracle and correspondence, not proved.",
+    technique="Coq proof on an executable template-engine model + exact-output correspondence + independent-semantics oracle", ref='5 C16'),
  'C18': dict(
     text="Theorems over the collection-equivalence model: the verdict is true exactly when ontologies are equal and both "
          "collections have the same hashes with equal merged events (spec), symmetry, reflexivity, equivalence with the "
